@@ -170,7 +170,10 @@ def group_oracle(metas, parsed):
                 if abs(len(tr) - len(tb)) > max(3, len(tb) // 10):
                     out.append((cid, "copies-steps", "duplicating the system changed the number of samples from %d to %d" % (len(tb), len(tr))))
                     continue
-                if len(tb) > 2 and len(tr) > 2 and not close(tb[2], tr[2], 1e-9):
+                # (1e-6, not rounding level: with a first_step that is rejected the third SAMPLE may be the 20th attempt, and
+                # BDF's backward differences amplify the 1e-16 difference between a norm over n and over m*n components
+                # to 1e-8 by then -- observed: rot3, rtol 1.4e-9, identical counters, steps differing by 1.8e-8)
+                if len(tb) > 2 and len(tr) > 2 and not close(tb[2], tr[2], 1e-6):
                     out.append((cid, "copies-early-steps", "the second accepted step already differs: %r vs %r" % (tb[2], tr[2])))
                 if not b.get("y") or not r.get("y"):
                     continue   # a run that reports no sample at all (e.g. an Err from solve_ivp): equal statuses were checked above
